@@ -363,11 +363,14 @@ def u_groups(ip):
         g = G(ip)
         a = g.var("a")
         b = g.var("b", value=g.calc("f_b", a))
-        grp = ip.call(Group, ["grp"], {"a": a, "b": b})
+        r = g.var("r")  # a member that nothing else in the builder leads to
+        n = g.calc("f_n", name="n_bare")  # ... and a bare node member
+        grp = ip.call(Group, ["grp"], {"a": a, "b": b, "r": r, "n": n})
         gb = ip.call(g.GB, [], {})
-        ip.call(method(ip, gb, "add"), [b], {})
+        ip.call(method(ip, gb, "add"), [b], {})  # a and b are already reachable when the group is added
         ip.call(method(ip, gb, "add_groups"), [grp], {})
         m = ip.call(method(ip, gb, "build_model"), [], {"copy": copy_flag})
+        c.oblige(f"every_member_of_an_added_group_is_in_the_model.copy_{copy_flag}", "r" in m.f["_vars"] and "n_bare" in m.f["_nodes"] and "a" in m.f["_vars"] and "b" in m.f["_vars"])
         groups = ip.call(method(ip, m, "groups"), [], {})
         tag = f".copy_{copy_flag}"
         ok = isinstance(groups, dict) and list(groups) == ["grp"]
